@@ -3,6 +3,7 @@ package glob
 // C20 — Glob is total and is glob matching.
 
 import (
+	"strings"
 	"testing"
 
 	"pgregory.net/rapid"
@@ -88,6 +89,13 @@ func TestVerifC20Exhaustive(t *testing.T) {
 	}
 	pats := c20Strings([]byte{'a', 'b', '*'}, pl)
 	ins := c20Strings([]byte{'a', 'b'}, il)
+	// inputs are arbitrary strings (a requested server name is peer-chosen): a '*' in the INPUT is an ordinary byte
+	// that only a wildcard can absorb
+	for _, s := range c20Strings([]byte{'a', 'b', '*'}, il-2) {
+		if strings.Contains(s, "*") {
+			ins = append(ins, s)
+		}
+	}
 	rec.SetRequested(0)
 	sigs := map[string]bool{}
 	for i, p := range pats {
@@ -116,6 +124,8 @@ func TestVerifC20Exhaustive(t *testing.T) {
 func c20Gen(t *rapid.T) c20Case {
 	alpha := []byte("abc.-")
 	lit := rapid.SampledFrom(alpha)
+	// bytes of the input that a wildcard absorbs, or that perturb it, may be anything - including '*' itself
+	anyb := rapid.OneOf(rapid.SampledFrom([]byte("abc.-***")), rapid.SampledFrom([]byte{0, ' ', '?', '[', '\\', 0x7f}))
 	n := rapid.IntRange(0, 12).Draw(t, "ntok")
 	var p, s []byte
 	for i := 0; i < n; i++ {
@@ -123,7 +133,7 @@ func c20Gen(t *rapid.T) c20Case {
 			p = append(p, '*')
 			k := rapid.IntRange(0, 4).Draw(t, "fill")
 			for j := 0; j < k; j++ {
-				s = append(s, lit.Draw(t, "f"))
+				s = append(s, anyb.Draw(t, "f"))
 			}
 		} else {
 			k := rapid.IntRange(1, 3).Draw(t, "run")
@@ -139,7 +149,7 @@ func c20Gen(t *rapid.T) c20Case {
 	case 0:
 		if len(s) > 0 {
 			i := rapid.IntRange(0, len(s)-1).Draw(t, "pi")
-			s[i] = lit.Draw(t, "pc")
+			s[i] = anyb.Draw(t, "pc")
 		}
 	case 1:
 		if len(s) > 0 {
@@ -148,7 +158,7 @@ func c20Gen(t *rapid.T) c20Case {
 		}
 	case 2:
 		i := rapid.IntRange(0, len(s)).Draw(t, "ii")
-		s = append(s[:i:i], append([]byte{lit.Draw(t, "ic")}, s[i:]...)...)
+		s = append(s[:i:i], append([]byte{anyb.Draw(t, "ic")}, s[i:]...)...)
 	}
 	return c20Case{P: string(p), S: string(s)}
 }
